@@ -3,7 +3,7 @@ LEVEL = "model_checking"
 MANIFEST = {
     "engine": "tlc rule table + vhtree c50",
     "technique": "Entries(tree, prefix, pathspecs) rule of git archive transcribed in TLA+ and evaluated by TLC over all requests of a bounded domain; go-git's Repository.Archive output (tar, tar.gz, zip) and git archive's output are parsed with archive/tar and archive/zip and compared entry by entry with the rule",
-    "text": "Exhaustive within the bound: trees = subsets of 8 leaf paths (regular, empty, executable, symlink, gitlink, nested directories, a 120-byte name; quick: subsets with <=3 or >=7 leaves) x 4 prefixes ('', 'p/', 'p/q/', 'p-') x 9 pathspec sets (none, file, directory, nested, wildcard crossing '/', gitlink, two specs, a spec that matches nothing). For every request TLC computes the ordered entry list with type, mode, link target / content token, the archive comment and whether git refuses; every go-git archive in three formats and a seeded sample of git archives (quick 900, thorough 12 000 of the 18 432 request x format pairs) are compared with it. Spec theorems (same listing in tar and zip, parents before children, nothing outside prefix/selection, failure iff a pathspec selects nothing) are TLC invariants.",
+    "text": "Exhaustive within the bound: trees = subsets of 9 leaf paths (regular, empty, executable, symlink, gitlink, nested directories, a 120-byte name, and the siblings a < ax/ < axd/ that are string prefixes of one another; quick: subsets with <=2 or >=8 leaves) x 4 prefixes ('', 'p/', 'p/q/', 'p-') x 10 pathspec sets (none, file, directory, nested, wildcard crossing '/', gitlink, two specs, a spec that matches nothing, a two-component spec axd/e whose first component has a file and a directory sibling that are proper string prefixes of it). For every request TLC computes the ordered entry list with type, mode, link target / content token, the archive comment and whether git refuses; every go-git archive in three formats and a seeded sample of git archives (quick 900, thorough 12 000 of the 40 960 request x format pairs) are compared with it. Spec theorems (same listing in tar and zip, parents before children, nothing outside prefix/selection, failure iff a pathspec selects nothing) are TLC invariants.",
     "note": "Archives are compared by parsed content (names, type, permission bits / presence of Unix attributes, link target, file bytes, mtime, comment), not byte for byte; uid/gid/uname, compression level and header padding are not compared. The treeish is always a commit id (tree-id requests use the current time and are not compared). Trusts Go's archive/tar and archive/zip readers on both legs.",
 }
 
@@ -18,7 +18,7 @@ CHECK_DEADLOCK FALSE
 def run(ctx):
     r = ctx.tlc("Archive", cfg_text=CFG % ("TRUE" if ctx.thorough else "FALSE"), timeout=3000)
     rep = ctx.vh("c50", [r.dir + "/archive_rows.ndjson"], pkg="vhtree", timeout=3000)
-    ctx.cov["bounds"] = {"leaf_paths": 8, "trees": rep.get("extra", {}).get("trees"), "prefixes": 4, "pathspec_sets": 9,
+    ctx.cov["bounds"] = {"leaf_paths": 9, "trees": rep.get("extra", {}).get("trees"), "prefixes": 4, "pathspec_sets": 10,
                          "formats_gogit": ["tar", "tar.gz", "zip"], "formats_git": ["tar", "zip"],
                          "requests": rep.get("distinct"), "git_archives": rep.get("extra", {}).get("git_archives")}
     ctx.cov["exhaustive"] = True
